@@ -43,7 +43,7 @@ def seeded_table():
     rounds = sorted({(n.split("-") + ["1"])[1] for n, _ in metas}, key=int)
     det = [m for _, m in metas if m.get("detected")]
     rows = ["%d seeds in %d rounds; %d recorded as detected (exit 1 with a replay), %d of them only after the generators / clauses were "
-            "strengthened as noted, %d through the check of another property (noted in the row); not detected: %s." % (
+            "strengthened as noted, %d carry a note (caught by the check of another property, or recorded at a HEAD strengthened after reading the seed's report); not detected: %s." % (
                 len(metas), len(rounds), len(det), sum(1 for m in det if m.get("detected_initially") is False or m.get("strengthening")),
                 sum(1 for m in det if m.get("note")), ", ".join(n for n, m in metas if not m.get("detected")) or "none"), "",
             "| seed | change | needs | detected |", "|----|----|----|----|"]
